@@ -43,7 +43,7 @@ def SVD(mat):
             s = s.to(v.dtype)
             return u, s, v
         except:
-            u, s, v = np.linalg.svd(mat.numpy(),full_matrices=False)
+            u, s, v = np.linalg.svd(mat.resolve_conj().numpy(),full_matrices=False)
             return tn.tensor(u, dtype = mat.dtype, device = mat.device), tn.tensor(s, dtype = mat.dtype, device = mat.device), tn.tensor(v, dtype = mat.dtype, device = mat.device)
     else:
         try:    
@@ -51,7 +51,7 @@ def SVD(mat):
             s = s.to(v.dtype)
             return  v.t(), s, u.t()
         except:
-            u, s, v = np.linalg.svd((mat.t()).numpy(),full_matrices=False)
+            u, s, v = np.linalg.svd((mat.t()).resolve_conj().numpy(),full_matrices=False)
             return  tn.tensor(v.T, dtype = mat.dtype, device = mat.device), tn.tensor(s, dtype = mat.dtype, device = mat.device), tn.tensor(u.T, dtype = mat.dtype, device = mat.device)
     # u, s, v = tn.linalg.svd(mat,full_matrices=False)
     # return u, s, v
